@@ -66,7 +66,7 @@ def m_vec_from_elem(c, v, n):
     return Seq([v for _ in range(k)], 'vec')
 
 
-@model(r'^(?:std::slice::|alloc::slice::)?<impl \[.*\]>::into_vec::<')
+@model(r'^(?:\w+::)*<impl \[.*\]>::into_vec::<')
 def m_slice_into_vec(c, b):
     ip = c.ip
     v = deref(ip, b)
@@ -79,7 +79,7 @@ def seq_items(v):
     raise Inconclusive("expected seq, got %r" % (v,))
 
 
-@model(r'^(?:std::slice::|alloc::slice::)?<impl \[.*\]>::to_vec$|^(?:core::)?slice::<impl \[.*\]>::to_vec$|^<\[.*\] as ToOwned>::to_owned$')
+@model(r'^(?:\w+::)*<impl \[.*\]>::to_vec$|^(?:\w+::)*slice::<impl \[.*\]>::to_vec$|^<\[.*\] as ToOwned>::to_owned$')
 def m_slice_to_vec(c, s):
     return Seq(list(items(c.ip, s)), 'vec')
 
@@ -131,7 +131,7 @@ def m_ptr_aligned(c, *a):
        r'|^<(?:std::vec::)?Vec<.*> as (?:std::ops::)?(?:Deref|DerefMut|AsRef<.*>|Borrow<.*>|AsMut<.*>)>::\w+$'
        r'|^(?:std::vec::)?Vec::<.*>::(as_slice|as_mut_slice)$'
        r'|^<(?:bytes::)?BytesMut as (?:std::ops::)?(?:Deref|DerefMut|AsRef<.*>|Borrow<.*>|AsMut<.*>)>::\w+$'
-       r'|^(?:core::)?str::<impl str>::(as_bytes|as_str|trim_matches_noop)$'
+       r'|^(?:\w+::)*str::<impl str>::(as_bytes|as_str|trim_matches_noop)$'
        r'|^<str as AsRef<.*>>::as_ref$|^<\[u8\] as AsRef<.*>>::as_ref$'
        r'|^<(?:std::borrow::)?Cow<.*> as (?:std::ops::)?Deref>::deref$'
        r'|^<&?(?:mut )?(?:str|\[u8\]|std::string::String|String) as (?:std::ops::)?Deref>::deref$'
@@ -172,8 +172,8 @@ def m_cstring_new(c, s):
 
 # ----------------------------------------------------------------------------- String / str
 @model(r'^<str as (?:std::string::)?ToString>::to_string$|^<(?:std::string::)?String as (?:std::string::)?ToString>::to_string$'
-       r'|^(?:core::)?str::<impl str>::(to_string|to_owned)$|^<str as (?:std::borrow::)?ToOwned>::to_owned$'
-       r'|^(?:alloc::)?str::<impl str>::to_owned$|^<(?:std::borrow::)?Cow<\'?_?,? ?str> as (?:std::string::)?ToString>::to_string$'
+       r'|^(?:\w+::)*str::<impl str>::(to_string|to_owned)$|^<str as (?:std::borrow::)?ToOwned>::to_owned$'
+       r'|^(?:\w+::)*str::<impl str>::to_owned$|^<(?:std::borrow::)?Cow<\'?_?,? ?str> as (?:std::string::)?ToString>::to_string$'
        r'|^(?:std::borrow::)?Cow::<\'?_?,? ?str>::(into_owned)$|^<&str as (?:std::string::)?ToString>::to_string$')
 def m_to_string(c, s):
     return Seq(list(items(c.ip, s)), 'string')
@@ -202,8 +202,8 @@ def m_string_add_assign(c, p, t):
     return unit()
 
 
-@model(r'^(?:std::string::)?String::(len|is_empty|clear)$|^(?:core::)?str::<impl str>::(len|is_empty)$'
-       r'|^(?:std::vec::)?Vec::<.*>::(len|is_empty|clear)$|^(?:core::)?slice::<impl \[.*\]>::(len|is_empty)$'
+@model(r'^(?:std::string::)?String::(len|is_empty|clear)$|^(?:\w+::)*str::<impl str>::(len|is_empty)$'
+       r'|^(?:std::vec::)?Vec::<.*>::(len|is_empty|clear)$|^(?:\w+::)*slice::<impl \[.*\]>::(len|is_empty)$'
        r'|^(?:bytes::)?BytesMut::(len|is_empty|clear)$|^(?:std::collections::)?VecDeque::<.*>::(len|is_empty|clear)$')
 def m_len(c, p):
     ip = c.ip
@@ -252,7 +252,7 @@ def m_into_bytes(c, s):
     return s
 
 
-@model(r'^(?:core::)?str::<impl str>::(to_lowercase|to_uppercase|to_ascii_lowercase|to_ascii_uppercase)$'
+@model(r'^(?:\w+::)*str::<impl str>::(to_lowercase|to_uppercase|to_ascii_lowercase|to_ascii_uppercase)$'
        r'|^(?:std::string::)?String::(to_lowercase)$')
 def m_to_lower(c, s):
     ip = c.ip
@@ -273,7 +273,7 @@ def m_to_lower(c, s):
     return Seq(out, 'string')
 
 
-@model(r'^(?:core::)?str::<impl str>::(eq_ignore_ascii_case)$')
+@model(r'^(?:\w+::)*str::<impl str>::(eq_ignore_ascii_case)$')
 def m_eq_ignore_case(c, a, b):
     ip = c.ip
     ai, bi = items(ip, a), items(ip, b)
@@ -287,7 +287,7 @@ def m_eq_ignore_case(c, a, b):
     return mkbool(conj([val_eq(ip, low(x), low(y)) for x, y in zip(ai, bi)]))
 
 
-@model(r'^(?:core::)?str::<impl str>::(starts_with|ends_with|contains)::<(.*)>$')
+@model(r'^(?:\w+::)*str::<impl str>::(starts_with|ends_with|contains)::<(.*)>$')
 def m_str_starts_with(c, s, pat):
     ip = c.ip
     op = c.m.group(1)
@@ -306,7 +306,7 @@ def m_str_starts_with(c, s, pat):
     return mkbool(disj([conj([val_eq(ip, a, b) for a, b in zip(si[i:i + k], pi)]) for i in range(n - k + 1)]))
 
 
-@model(r'^(?:core::)?str::<impl str>::(trim|trim_start|trim_end)$')
+@model(r'^(?:\w+::)*str::<impl str>::(trim|trim_start|trim_end)$')
 def m_str_trim(c, s):
     ip = c.ip
     its = list(items(ip, s))
@@ -327,7 +327,7 @@ def m_str_trim(c, s):
     return Ptr(Cell(SeqView(base, lo, hi - lo), 'trim'), ())
 
 
-@model(r'^(?:core::)?str::<impl str>::parse::<(\w+)>$|^<(\w+) as (?:std::str::)?FromStr>::from_str$')
+@model(r'^(?:\w+::)*str::<impl str>::parse::<(\w+)>$|^<(\w+) as (?:std::str::)?FromStr>::from_str$')
 def m_str_parse(c, s):
     """Exact model of integer FromStr: optional sign, >=1 ASCII digits, overflow -> Err."""
     ip = c.ip
@@ -374,7 +374,7 @@ def m_str_parse(c, s):
     return ok(ip, lowv)
 
 
-@model(r'^(?:core::)?str::<impl str>::(chars|bytes|char_indices)$|^(?:core::)?slice::<impl \[.*\]>::(iter|iter_mut)$'
+@model(r'^(?:\w+::)*str::<impl str>::(chars|bytes|char_indices)$|^(?:\w+::)*slice::<impl \[.*\]>::(iter|iter_mut)$'
        r'|^(?:std::vec::)?Vec::<.*>::(iter|iter_mut)$|^(?:bytes::)?BytesMut::(iter)$'
        r'|^<&(?:mut )?(?:std::vec::)?Vec<.*> as (?:std::iter::)?IntoIterator>::into_iter$'
        r'|^<&(?:mut )?\[.*\] as (?:std::iter::)?IntoIterator>::into_iter$'
@@ -430,7 +430,7 @@ class IterV:
         return "Iter(%d left)" % (len(self.items) - self.pos)
 
 
-@model(r'^(?:core::)?slice::<impl \[.*\]>::(first|last)$|^(?:std::vec::)?Vec::<.*>::(first|last)$')
+@model(r'^(?:\w+::)*slice::<impl \[.*\]>::(first|last)$|^(?:std::vec::)?Vec::<.*>::(first|last)$')
 def m_first_last(c, p):
     ip = c.ip
     op = c.m.group(1) or c.m.group(2)
@@ -443,7 +443,7 @@ def m_first_last(c, p):
     return some(ip, Ptr(Cell(base, 'elt'), (('i', BV(64, off + i)),)))
 
 
-@model(r'^(?:core::)?slice::<impl \[.*\]>::(get|get_mut)::<usize>$|^(?:std::vec::)?Vec::<.*>::(get|get_mut)::<usize>$')
+@model(r'^(?:\w+::)*slice::<impl \[.*\]>::(get|get_mut)::<usize>$|^(?:std::vec::)?Vec::<.*>::(get|get_mut)::<usize>$')
 def m_slice_get(c, p, idx):
     ip = c.ip
     s = seq(ip, p)
@@ -529,7 +529,7 @@ def m_index_range(c, p, r):
     return Ptr(Cell(SeqView(s, a, b - a), 'slice'), ())
 
 
-@model(r'^(?:core::)?slice::<impl \[.*\]>::(split_at|split_at_mut)$')
+@model(r'^(?:\w+::)*slice::<impl \[.*\]>::(split_at|split_at_mut)$')
 def m_split_at(c, p, mid):
     ip = c.ip
     s = seq(ip, p)
@@ -605,13 +605,13 @@ def m_vec_remove(c, p, n):
     return s.items.pop(k)
 
 
-@model(r'^(?:core::)?slice::<impl \[(.*)\]>::(contains)$|^(?:std::vec::)?Vec::<(.*)>::(contains)$')
+@model(r'^(?:\w+::)*slice::<impl \[(.*)\]>::(contains)$|^(?:std::vec::)?Vec::<(.*)>::(contains)$')
 def m_slice_contains(c, p, x):
     ip = c.ip
     return mkbool(disj([val_eq(ip, e, x) for e in items(ip, p)]))
 
 
-@model(r'^(?:core::)?slice::<impl \[.*\]>::(join|concat)::<')
+@model(r'^(?:\w+::)*slice::<impl \[.*\]>::(join|concat)::<')
 def m_slice_join(c, p, *sep):
     ip = c.ip
     out = []
@@ -624,7 +624,7 @@ def m_slice_join(c, p, *sep):
     return Seq(out, 'string')
 
 
-@model(r'^(?:core::)?slice::<impl \[.*\]>::(copy_from_slice|clone_from_slice)$')
+@model(r'^(?:\w+::)*slice::<impl \[.*\]>::(copy_from_slice|clone_from_slice)$')
 def m_copy_from_slice(c, dst, src):
     ip = c.ip
     d = seq(ip, dst)
